@@ -416,9 +416,37 @@ def gen_limits():
     if len(re.findall(r"\bcycle\b", t)) != 3:
         raise GenError("translator cannot parse exec.c: `cycle` is used in %d places, expected 3 (init, ++cycle test, reset)"
                        % len(re.findall(r"\bcycle\b", t)))
-    # the check sits at the end of the body of `while (!stop)`: one test per executed instruction
-    if not re.search(r"while\s*\(\s*!stop\s*\)\s*\{\s*opcode\s*=\s*\*ip\s*;\s*ip\+\+\s*;\s*switch\s*\(\s*opcode\s*\)", t):
-        raise GenError("translator cannot parse exec.c: instruction loop `while (!stop) { opcode = *ip; ip++; switch (opcode)`")
+    # where the test sits in `while (!stop) { opcode = *ip; ip++; switch (opcode) {...} <test> }`: when it is the last
+    # statement of the loop body, `stop = true` is followed by the loop's own `!stop` test; anywhere before the switch one more
+    # instruction executes first (and may overwrite result / stop)
+    wm = _one(rel, t, r"while\s*\(\s*!stop\s*\)\s*\{", "instruction loop `while (!stop) {`")
+    depth, j = 1, wm.end()
+    while depth and j < len(t):
+        depth += {"{": 1, "}": -1}.get(t[j], 0)
+        j += 1
+    lbody = t[wm.end():j - 1]
+    fm = re.search(r"opcode\s*=\s*\*ip\s*;\s*ip\+\+\s*;", lbody)
+    sm = re.search(r"switch\s*\(\s*opcode\s*\)\s*\{", lbody)
+    cm = re.search(r"if\s*\(\s*context->timeout\s*>\s*0ULL\s*&&\s*\+\+cycle", lbody)
+    if not fm or not sm or not cm or sm.start() < fm.start():
+        raise GenError("translator cannot parse exec.c: instruction loop `while (!stop) { opcode = *ip; ip++; switch (opcode) {..} }` with the timeout test inside")
+    depth, k = 1, sm.end()
+    while depth and k < len(lbody):
+        depth += {"{": 1, "}": -1}.get(lbody[k], 0)
+        k += 1
+    sw_end = k
+    # end of the timeout block: `if (...) { ... }`
+    k = lbody.index("{", cm.start())
+    depth, k = 1, k + 1
+    while depth and k < len(lbody):
+        depth += {"{": 1, "}": -1}.get(lbody[k], 0)
+        k += 1
+    last = lbody[k:].strip() == ""
+    after_switch = cm.start() >= sw_end
+    o.comment("exec.c: instructions executed between a positive deadline test (`result = ERROR_SCAN_TIMEOUT; stop = true`) and the exit of "
+              "`while (!stop)`: 0 when the test is the last statement of the loop body (after the switch), 1 when it sits before the switch")
+    o.z("vm_instrs_after_deadline_test", 0 if (after_switch and last) else 1)
+    o.b("vm_deadline_test_after_switch", after_switch)
 
     # ------------------------------------------------------------------ scan.c
     rel = "scan.c"
